@@ -31,6 +31,7 @@ OBLIGATIONS = [
     "KafVerif.C23.name_star",
     "KafVerif.C23.name_exact",
     "KafVerif.C23.name_prefix",
+    "KafVerif.C23.name_exact_case_sensitive",
     "KafVerif.C23.old_violates_deny_overrides",
     "KafVerif.C23.old_violates_add_deny",
     "KafVerif.C23.sql_deny_overrides",
@@ -98,9 +99,9 @@ def py_matches(rule, req):
 PRINCIPALS = ["alice", "bob", " alice ", "", "anonymous", "  ", "carol", "Alice", "alice\t", " bob", "svc-1", " "]
 ACTIONS = ["produce", "fetch", "PRODUCE", "Fetch", "*", "", "admin", "group_read", "produce ", "prod"]
 RESOURCES = ["topic", "group", "TOPIC", "*", "", "cluster", "Topic", "topics"]
-PATTERNS = ["orders", "orders-*", "*", "", "ord*", " orders ", "orders*", "o*", "**", "orders-eu", "*orders", "ord*rs",
+PATTERNS = ["orders", "orders-*", "*", "", "ord*", " orders ", "Orders", "o*", "**", "orders-eu", "*orders", "ord*rs", "orders*", "Ord*", "ORDERS-*",
             "主题*", " * ", "payments", " pay*\t", "orders-", "ORDERS", "*-eu", "o"]
-NAMES = ["orders", "orders-eu", "orders-", "order", "ord", "", "o", "payments", "*", "orders*", "ORDERS",
+NAMES = ["orders", "orders-eu", "Orders", "order", "ord", "", "o", "payments", "*", "orders*", "ORDERS", "orders-", "Orders-eu", "oRDERS",
          "主题1", " orders", "pay", "ord*rs", "ordXrs", "eu-orders", "orders ", "*orders"]
 DEFAULTS = ["allow", "deny", "", "ALLOW", " Allow ", "allowed", "allow\n", "Deny", "al low"]
 
@@ -160,6 +161,113 @@ def gen_broker_case(rng, nreq):
                 r = gen_rule(rng); ops.append(rule_line(kind, r)); meta.append((kind, r))
         ask("ext-" + kind)
     return ops, meta
+
+
+POOL_RULES = [("produce", "topic", "orders"), ("*", "topic", "ord*"), ("produce", "topic", "Orders"), ("PRODUCE", "topic", "orders"),
+              ("fetch", "*", "*"), ("", "", ""), ("produce", "topic", " orders "), ("fetch", "group", "g*"), ("produce", "Topic", "orders-*"),
+              ("*", "*", "Orders"), ("produce", "topic", "ORDERS")]
+PRINCIPAL_VARIANTS = {"alice": ["alice", " alice", "alice ", "\talice\n", "\u00a0alice", "alice"], "bob": ["bob", " bob ", "bob"],
+                      "anonymous": ["anonymous", " anonymous "], "Alice": ["Alice", " Alice"]}
+
+
+def request_for(rng, rule):
+    """a request the rule matches (or nearly matches: case / one-character variants of the name)"""
+    a, r, n = rule
+    qa = a if a not in ("", "*") else rng.choice(["produce", "fetch"])
+    qr = r if r not in ("", "*") else rng.choice(["topic", "group"])
+    n = go_trim(n)
+    if n in ("", "*"):
+        qn = rng.choice(["orders", "x", "Orders"])
+    elif n.endswith("*"):
+        qn = n[:-1] + rng.choice(["", "eu", "X"])
+    else:
+        qn = n
+    v = rng.below(8)
+    if v == 0:
+        qn = qn.swapcase()
+    elif v == 1:
+        qn = qn.capitalize()
+    elif v == 2:
+        qn = qn.lower()
+    elif v == 3:
+        qa = qa.upper()
+    return qa, qr, qn
+
+
+def gen_collision_case(rng, nreq):
+    """Few principals under several spellings, rules drawn from a SMALL pool for both lists: the same rule text recurs
+    in allow and deny lists, inside one entry and across duplicate entries of a principal."""
+    enabled = True
+    default = rng.choice(["allow", "deny"])
+    ops = ["cfg 1 " + hx(default)]; meta = [("cfg", enabled, default)]
+    pool = rng_pick(rng, POOL_RULES, rng.range(2, 4))
+    people = rng_pick(rng, list(PRINCIPAL_VARIANTS), rng.range(1, 2))
+    names = []
+
+    def entry(kinds):
+        n = rng.choice(PRINCIPAL_VARIANTS[rng.choice(people)])
+        names.append(n)
+        ops.append("pr " + hx(n)); meta.append(("pr", n))
+        for kind in kinds:
+            for _ in range(rng.choice([0, 1, 1, 2])):
+                r = rng.choice(pool); ops.append(rule_line(kind, r)); meta.append((kind, r))
+    for _ in range(rng.range(2, 4)):
+        entry(("al", "dn"))
+    reqs = []
+    for _ in range(nreq):
+        p = rng.choice(PRINCIPAL_VARIANTS[rng.choice(people)]) if rng.chance(5, 6) else rng.choice(PRINCIPALS)
+        reqs.append((p,) + request_for(rng, rng.choice(pool)))
+
+    def ask(tag):
+        for q in reqs:
+            ops.append("rq %s %s %s %s" % tuple(hx(x) for x in q)); meta.append(("rq", q, tag))
+    ask("base")
+    for _ in range(rng.range(1, 2)):
+        kind = rng.choice(["al", "dn"])
+        entry((kind,))
+        if meta[-1][0] == "pr":       # an entry without rules changes nothing: still a valid allow-only AND deny-only extension
+            pass
+        ask("ext-" + kind)
+    return ops, meta
+
+
+def rng_pick(rng, xs, n):
+    xs = list(xs)
+    out = []
+    for _ in range(min(n, len(xs))):
+        out.append(xs.pop(rng.below(len(xs))))
+    return out
+
+
+def fixed_broker_cases():
+    """hand-written regression configurations"""
+    out = []
+
+    def case(default, entries, reqs):
+        ops = ["cfg 1 " + hx(default)]; meta = [("cfg", True, default)]
+        for n, al, dn in entries:
+            ops.append("pr " + hx(n)); meta.append(("pr", n))
+            for r in al:
+                ops.append(rule_line("al", r)); meta.append(("al", r))
+            for r in dn:
+                ops.append(rule_line("dn", r)); meta.append(("dn", r))
+        for q in reqs:
+            ops.append("rq %s %s %s %s" % tuple(hx(x) for x in q)); meta.append(("rq", q, "base"))
+        out.append((ops, meta))
+    R = ("produce", "topic", "orders")
+    # the original defect: deny in an earlier entry of the same principal
+    case("", [("p", [], [("produce", "topic", "secret")]), (" p ", [("produce", "topic", "*")], [])],
+         [("p", "produce", "topic", "secret"), ("p", "produce", "topic", "other"), ("", "produce", "topic", "x")])
+    # the same rule text as allow in one entry and deny in another entry of the principal (both orders), and inside one entry
+    case("deny", [("p", [R], []), (" p", [], [R])], [("p",) + R, ("p", "produce", "topic", "other")])
+    case("allow", [("p", [], [R]), ("p\t", [R], [])], [("p",) + R])
+    case("deny", [("p", [R], [R])], [("p",) + R])
+    case("deny", [("p", [R, R], []), ("q", [], [R]), ("p", [("*", "*", "*")], [R, R])], [("p",) + R, ("q",) + R, ("p", "fetch", "group", "g")])
+    # exact names are case-sensitive, prefixes too; actions/resources are not
+    case("deny", [("p", [("produce", "topic", "orders"), ("fetch", "topic", "Ord*")], [("produce", "topic", "Secret")])],
+         [("p", "produce", "topic", "Orders"), ("p", "PRODUCE", "TOPIC", "orders"), ("p", "produce", "topic", "ORDERS"),
+          ("p", "fetch", "topic", "orders"), ("p", "fetch", "topic", "Orders"), ("p", "produce", "topic", "secret"), ("p", "produce", "topic", "Secret")])
+    return out
 
 
 def monitor_broker(ops, meta, out, check_bits=True):
@@ -348,7 +456,7 @@ def minimise(ck, binary, which, ops, meta, idx, fp):
     return [ops[j] for j in sel], [list(meta[j]) for j in sel]
 
 
-def drive(ck, binary, which, cases, exotic=False):
+def drive(ck, binary, which, cases, exotic=False, light=False):
     """exotic=True: strings outside the modelled domain (non-ASCII case folding, path.Match classes/escapes, invalid UTF-8):
     implementation only, decision-level monitor on the implementation's own match bits."""
     all_ops, all_meta, bounds = [], [], []
@@ -377,7 +485,7 @@ def drive(ck, binary, which, cases, exotic=False):
             ns = [go_trim(m[1]) for m in meta if m[0] == "pr"]
             dup = len(ns) != len(set(ns))
             ck.count("broker_cases_with_duplicate_principal", 1 if dup else 0)
-        ck.case((which, tuple(ops)), nontrivial=(0 < allows < nq), sample={"which": which, "ops": ops[:10], "impl": io[:10]})
+        ck.case((which, tuple(ops)), nontrivial=(0 < allows < nq), sample=None if light else {"which": which, "ops": ops[:10], "impl": io[:10]})
         ck.cov["traces_validated_against_impl"] += 1
         bad = mon(ops, meta, io)
         for (i, fp, what) in bad:
@@ -446,13 +554,31 @@ def gen_exotic_sql_case(rng, ntopics):
     return ops, meta
 
 
+def _cfg_case(default, entries, reqs):
+    ops = ["cfg 1 " + hx(default)]; meta = [("cfg", True, default)]
+    for n, al, dn in entries:
+        ops.append("pr " + hx(n)); meta.append(("pr", n))
+        for r in al:
+            ops.append(rule_line("al", r)); meta.append(("al", r))
+        for r in dn:
+            ops.append(rule_line("dn", r)); meta.append(("dn", r))
+    for q in reqs:
+        ops.append("rq %s %s %s %s" % tuple(hx(x) for x in q)); meta.append(("rq", q, "base"))
+    return ops, meta
+
+
 def exhaustive_broker_cases():
-    """thorough tier: every configuration over 2 principals x 2 actions x 2 resources x 3 patterns with
-    <= 2 entries, <= 1 allow and <= 1 deny rule per entry, against every request of the alphabet."""
+    """thorough tier, small-scope exhaustive enumeration (a generator of cases; the caller drives it in chunks).
+    Alphabet: principals {a, b} (entries may repeat a principal), actions {produce, fetch}, resources {topic, group},
+    name patterns {exact, prefix*, *} incl. a case variant of the exact name.
+      F0: 2 entries, <= 1 rule per list, 7-rule pool, both defaults, 18 requests          (3.5k configs)
+      F1: <= 3 entries, <= 1 rule per list, 4-rule pool (identical rules recur in allow AND deny lists,
+          across duplicate entries), first entry named a (requests range over a, b and unknown c)   (64k configs)
+      F2: <= 2 entries, <= 2 rules per list, 3-rule pool, first entry named a                        (57k configs)
+    F1/F2 alternate the default policy by configuration index."""
     ps, acts, ress, pats = ["a", "b"], ["produce", "fetch"], ["topic", "group"], ["orders", "ord*", "*"]
     rules = [None] + [(a, r, n) for a in acts[:1] + ["*"] for r in ress[:1] for n in pats]
     reqs = [(p, a, r, n) for p in ps + ["c"] for a in acts for r in ress[:1] for n in ["orders", "ord", "x"]]
-    cases = []
     for default in ("allow", "deny"):
         for n1 in ps:
             for n2 in ps:
@@ -460,41 +586,58 @@ def exhaustive_broker_cases():
                     for dn1 in rules:
                         for al2 in rules[:3]:
                             for dn2 in rules[:3]:
-                                ops = ["cfg 1 " + hx(default)]; meta = [("cfg", True, default)]
-                                for n, al, dn in ((n1, al1, dn1), (n2, al2, dn2)):
-                                    ops.append("pr " + hx(n)); meta.append(("pr", n))
-                                    if al:
-                                        ops.append(rule_line("al", al)); meta.append(("al", al))
-                                    if dn:
-                                        ops.append(rule_line("dn", dn)); meta.append(("dn", dn))
-                                for q in reqs:
-                                    ops.append("rq %s %s %s %s" % tuple(hx(x) for x in q)); meta.append(("rq", q, "base"))
-                                cases.append((ops, meta))
-    return cases
+                                yield _cfg_case(default, [(n1, [al1] if al1 else [], [dn1] if dn1 else []),
+                                                          (n2, [al2] if al2 else [], [dn2] if dn2 else [])], reqs)
+    pool4 = [("produce", "topic", "orders"), ("*", "*", "ord*"), ("produce", "topic", "Orders"), ("fetch", "group", "*")]
+    shapes = [("produce", "topic", "orders"), ("produce", "topic", "Orders"), ("fetch", "group", "ord")]
+    reqs1 = [(p,) + sh for p in ("a", " b ") for sh in shapes] + [("c",) + shapes[0]]
+    lists1 = [[]] + [[r] for r in pool4]
+    entries_a = [("a", al, dn) for al in lists1 for dn in lists1]
+    entries_any = [(n, al, dn) for n in ("a", "b") for al in lists1 for dn in lists1]
+    k = 0
+    for e1 in entries_a:
+        yield _cfg_case("deny" if k % 2 else "allow", [e1], reqs1); k += 1
+        for e2 in entries_any:
+            yield _cfg_case("deny" if k % 2 else "allow", [e1, e2], reqs1); k += 1
+            for e3 in entries_any:
+                yield _cfg_case("deny" if k % 2 else "allow", [e1, e2, e3], reqs1); k += 1
+    pool3 = pool4[:3]
+    lists2 = [[]] + [[r] for r in pool3] + [[r1, r2] for r1 in pool3 for r2 in pool3]
+    for al1 in lists2:
+        for dn1 in lists2:
+            for n2 in ("a", "b"):
+                for al2 in lists2:
+                    for dn2 in lists2:
+                        yield _cfg_case("deny" if k % 2 else "allow", [("a", al1, dn1), (n2, al2, dn2)], reqs1[:6]); k += 1
 
 
 def run(ck):
     bins = ck.build_all()
     if bins is None:
         return
-    ck.cov["rule"] = ("a case = one generated configuration (0-4 entries drawn from <=3 names so duplicates are common, "
+    ck.cov["rule"] = ("collision cases: 2-4 entries for 1-2 principals under several spellings, rules for allow AND deny lists drawn from a "
+                      "2-4 rule pool so identical rule texts recur across lists and duplicate entries; "
+                      "a case = one generated configuration (0-4 entries drawn from <=3 names so duplicates are common, "
                       "0-3 allow / 0-2 deny rules each) + 12 requests + 1-3 allow-only/deny-only extensions re-asking the same "
                       "requests; non-trivial when both allow and deny decisions occur; distinct = distinct op lists")
     nb = 250 if ck.quick() else 2500
     ns = 150 if ck.quick() else 1500
-    # fixed regression cases first (the pre-fix defect and boundary patterns)
-    fixed_ops = ["cfg 1 -", "pr " + hx("p"), rule_line("dn", ("produce", "topic", "secret")),
-                 "pr " + hx(" p "), rule_line("al", ("produce", "topic", "*"))]
-    fixed_meta = [("cfg", True, ""), ("pr", "p"), ("dn", ("produce", "topic", "secret")), ("pr", " p "), ("al", ("produce", "topic", "*"))]
-    for q in [("p", "produce", "topic", "secret"), ("p", "produce", "topic", "other"), ("", "produce", "topic", "x")]:
-        fixed_ops.append("rq %s %s %s %s" % tuple(hx(x) for x in q)); fixed_meta.append(("rq", q, "base"))
-    cases = [(fixed_ops, fixed_meta)] + [gen_broker_case(ck.rng.fork(), 12) for _ in range(nb)]
-    if not ck.quick():
-        ex = exhaustive_broker_cases()
-        ck.count("broker_exhaustive_small_scope_cases", len(ex))
-        cases += ex
-        ck.cov["exhaustive"] = True
+    ncol = 250 if ck.quick() else 2500
+    cases = fixed_broker_cases() + [gen_broker_case(ck.rng.fork(), 12) for _ in range(nb)] + \
+        [gen_collision_case(ck.rng.fork(), 10) for _ in range(ncol)]
     drive(ck, bins["broker"], "broker", cases)
+    if not ck.quick():
+        chunk, n = [], 0
+        for c in exhaustive_broker_cases():
+            chunk.append(c); n += 1
+            if len(chunk) >= 8000:
+                drive(ck, bins["broker"], "broker", chunk, light=True); chunk = []
+            if ck.violations or ck.broken:
+                break
+        if chunk:
+            drive(ck, bins["broker"], "broker", chunk, light=True)
+        ck.count("broker_exhaustive_small_scope_cases", n)
+        ck.cov["exhaustive"] = True
     sql_fixed = (["sacl", "st " + hx("orders"), "sa " + hx("pay*"), "st " + hx("orders")],
                  [("sacl",), ("st", "orders", "base"), ("sa", "pay*"), ("st", "orders", "ext-sa")])
     drive(ck, bins["sql"], "sql", [sql_fixed] + [gen_sql_case(ck.rng.fork(), 8) for _ in range(ns)])
